@@ -31,6 +31,7 @@ TRUSTED_BASE = ["Lean 4.33 kernel", "axioms propext/Classical.choice/Quot.sound 
                 "scipy.stats.norm cdf/ppf (standard form) and np.sqrt as oracles; scipy's loc/scale, sf and isf forms are "
                 "modelled as (x-loc)/scale, 1-cdf, ppf(1-p)",
                 "np.random.Generator as an oracle (responses recorded by a delegating wrapper; lawfulness is a theorem hypothesis)",
+                "harness/dsdefs.py (reading of the Python / scipy idioms of datasets.py: loc= / scale= / **dict / frozen forms, `is None` / `or`, ROCCurve(...) / NormalDataset(...) keywords) for the regenerated closed forms; values only",
                 "harness and driver parsing; tolerance 1e-9 on float-valued quantities"]
 ASSUMPTIONS = ["finite mu, sigma > 0, rates in [1e-6, 1-1e-6] (tails outside are skipped for the inverse relations)",
                "np.floor(n*p) / int(support/rate) are float computations: counts are judged with floorOK(eps=1e-9); the exact "
@@ -42,6 +43,24 @@ KINDS = ["normal", "corrbern", "bernoulli", "frommetrics", "normal", "corrbern",
          "corrbern"]
 EPS = Fraction(1, 10**9)
 LO, HI = 1e-6, 1 - 1e-6
+
+
+# --------------------------------------------------------------------------------------
+# second tie for the closed forms: regenerated from the source on every run (harness/dsdefs.py -> generated Lean file, the
+# translated rows compared with the model's by the kernel; soundness: SA/Theorems/C20Defs.lean)
+# --------------------------------------------------------------------------------------
+def extra_gate_start():
+    """start the translator + Lean check in a child process; the sampled cases run meanwhile"""
+    import dsdefs
+    return dsdefs.start(ID, common.REPO)
+
+
+def extra_gate_finish(handle):
+    """-> {problems, theorems, obligations, discharged, notes, evidence, evidence_key}; a definite mismatch (an outcome code or a
+    named probe under the lawful interpretation separates a translated formula from the model's) is a broken proof obligation,
+    unknowns are evidence only"""
+    import dsdefs
+    return dsdefs.gate_result(dsdefs.finish(handle))
 
 
 def n_cases(tier):
